@@ -125,15 +125,15 @@ Lemma Mat4_scale_is_product : forall (A : V16 R) (s : V3 R),
   Mat4_scale A s = Mat4_matmul_m A (Mat4_from_scale s).
 Proof.
   intros A s H. dv16 A. dv3 s.
-  pose proof (H 0 1 ltac:(lia) ltac:(lia) ltac:(lia)) as H01.
-  pose proof (H 0 2 ltac:(lia) ltac:(lia) ltac:(lia)) as H02.
-  pose proof (H 1 0 ltac:(lia) ltac:(lia) ltac:(lia)) as H10.
-  pose proof (H 1 2 ltac:(lia) ltac:(lia) ltac:(lia)) as H12.
-  pose proof (H 2 0 ltac:(lia) ltac:(lia) ltac:(lia)) as H20.
-  pose proof (H 2 1 ltac:(lia) ltac:(lia) ltac:(lia)) as H21.
-  pose proof (H 3 0 ltac:(lia) ltac:(lia) ltac:(lia)) as H30.
-  pose proof (H 3 1 ltac:(lia) ltac:(lia) ltac:(lia)) as H31.
-  pose proof (H 3 2 ltac:(lia) ltac:(lia) ltac:(lia)) as H32.
+  pose proof (H 0%nat 1%nat ltac:(lia) ltac:(lia) ltac:(lia)) as H01.
+  pose proof (H 0%nat 2%nat ltac:(lia) ltac:(lia) ltac:(lia)) as H02.
+  pose proof (H 1%nat 0%nat ltac:(lia) ltac:(lia) ltac:(lia)) as H10.
+  pose proof (H 1%nat 2%nat ltac:(lia) ltac:(lia) ltac:(lia)) as H12.
+  pose proof (H 2%nat 0%nat ltac:(lia) ltac:(lia) ltac:(lia)) as H20.
+  pose proof (H 2%nat 1%nat ltac:(lia) ltac:(lia) ltac:(lia)) as H21.
+  pose proof (H 3%nat 0%nat ltac:(lia) ltac:(lia) ltac:(lia)) as H30.
+  pose proof (H 3%nat 1%nat ltac:(lia) ltac:(lia) ltac:(lia)) as H31.
+  pose proof (H 3%nat 2%nat ltac:(lia) ltac:(lia) ltac:(lia)) as H32.
   gsimp in H01. gsimp in H02. gsimp in H10. gsimp in H12. gsimp in H20. gsimp in H21.
   gsimp in H30. gsimp in H31. gsimp in H32. clear H. subst.
   gsimp. tuple_eq; ring.
